@@ -43,6 +43,13 @@ func UpdateCase(r *rand.Rand, name string, o UpdateOpts) *Case {
 	nestedPtr := false
 	var genDecl, genDeclT *Decl
 	unnamedSource := r.Intn(5) == 0
+	// defRec: the method's own target type recurs below it and is filled inline from an unnamed struct. The method's
+	// field settings are keyed by the target TYPE and would apply there, too (not judged), so such cases only use
+	// field kinds without map / ignore lines.
+	defRec := !unnamedSource && r.Intn(8) == 0
+	if defRec {
+		kinds = []string{"basic", "basic", "namedbasic", "struct", "slice", "map", "ptrbasic", "ptrstruct", "identslice", "identptr", "basic2ptr", "namedslice", "namedmap", "slice2ptr", "struct2ptr", "genericstruct"}
+	}
 	used := map[string]bool{}
 	nf := 3 + r.Intn(6)
 	for i := 0; i < nf; i++ {
@@ -215,7 +222,7 @@ func UpdateCase(r *rand.Rand, name string, o UpdateOpts) *Case {
 	}
 	// a goverter:default line on an update method is not used by it and must not disturb the field conversions
 	// (an inline T -> *U position next to it shows whether it does)
-	defLine := !unnamedSource && r.Intn(6) == 0
+	defLine := !unnamedSource && (defRec || r.Intn(6) == 0)
 	if defLine {
 		sS.Fields = append(sS.Fields, F("DefP", Slice(Basic("int"))), F("DefQ", Map(Basic("string"), Ptr(Basic("int")))))
 		tS.Fields = append(tS.Fields, F("DefP", Ptr(Slice(Basic("int")))), F("DefQ", Map(Basic("string"), Ptr(Basic("int")))))
@@ -226,6 +233,13 @@ func UpdateCase(r *rand.Rand, name string, o UpdateOpts) *Case {
 		}
 		methLines = append(methLines, "default NewDef")
 		c.Feature("defaultline", "true")
+	}
+	if unnamedSource && !used["funcfield"] && r.Intn(3) != 0 {
+		// func-typed fields are values only in unnamed source structs: keep them frequent there
+		used["funcfield"] = true
+		sS.Fields = append(sS.Fields, F("Fzf", RawType(KFunc, "func() int")))
+		tS.Fields = append(tS.Fields, F("Fzf", RawType(KFunc, "func() int")))
+		needSkip = true
 	}
 	if len(sS.Fields) == 0 {
 		sS.Fields = append(sS.Fields, F("Base", Basic("int")))
@@ -259,6 +273,15 @@ func UpdateCase(r *rand.Rand, name string, o UpdateOpts) *Case {
 	}
 	if needMissing {
 		place("ignoreMissing", func(f *vref.Flags) { f.IgnoreMissing = true })
+	}
+	if defRec {
+		// the method's own target type recurs below it, filled inline from an unnamed struct: an ordinary T -> *U
+		// position that has nothing to do with the (unused) constructor of the method
+		sS.Fields = append(sS.Fields, F("DefR", Struct(F("DefRV", Basic("int")))))
+		tS.Fields = append(tS.Fields, F("DefR", Ptr(Named(T))), F("DefRV", Basic("int")))
+		convLines = append(convLines, "ignoreMissing")
+		setConv = append(setConv, func(f *vref.Flags) { f.IgnoreMissing = true })
+		c.Feature("defaultrecursive", "true")
 	}
 	// the zero test of a non-comparable struct (the whole source with a slice field) is the known finding
 	// F-C01-noncomparable-zero: keep :struct off there
